@@ -43,6 +43,7 @@ type Client struct {
 	LoggedIn  bool
 	Access    rp.Access
 	reader    *simrt.Thread
+	Final     []rp.User // scenario scratch: last user list fetched
 }
 
 // NewClient creates a client (not yet connected).
